@@ -2021,6 +2021,9 @@ class VM:
 
     def _make_number_method(self, n: float, method: str) -> Any:
         """Create a bound number method."""
+        # (a host integer beyond 2^53, handed in by the embedder, stands for
+        # the nearest double - or an infinity - like everywhere else)
+        n = normalize_number(n)
 
         def digit_count(args, low, what):
             """ToIntegerOrInfinity of the argument; RangeError unless low..100."""
